@@ -318,6 +318,9 @@ theorem parseToken_aligned_core (S : Sem V) (t0 t : Tok) (opd : List V) (opt opf
     by_cases hb : isBeginParen t = true
     · have he := begin_not_end hb
       simp only [hb, he, if_true, Bool.false_eq_true, if_false]
+      cases hpf : applyPostfix S t opd1 with
+      | none => exact ⟨by simp, by intro _ _ h; cases h⟩
+      | some o =>
       refine ⟨by simp, ?_⟩
       intro opd' opt' heq
       simp only [Outcome.ok.injEq, Prod.mk.injEq] at heq
@@ -335,6 +338,10 @@ theorem parseToken_aligned_core (S : Sem V) (t0 t : Tok) (opd : List V) (opt opf
         | err => exact ⟨by simp, by intro _ _ h; cases h⟩
         | ok r2 =>
           obtain ⟨opt2, opd2⟩ := r2
+          simp only
+          cases hpf : applyPostfix S t opd2 with
+          | none => exact ⟨by simp, by intro _ _ h; cases h⟩
+          | some o =>
           refine ⟨by simp, ?_⟩
           intro opd' opt' heq
           simp only [Outcome.ok.injEq, Prod.mk.injEq] at heq
@@ -343,6 +350,9 @@ theorem parseToken_aligned_core (S : Sem V) (t0 t : Tok) (opd : List V) (opt opf
           simpa [frAfter, hb', he] using this
       · have he' : isEndParen t = false := by simpa using he
         simp only [he', Bool.false_eq_true, if_false]
+        cases hpf : applyPostfix S t opd1 with
+        | none => exact ⟨by simp, by intro _ _ h; cases h⟩
+        | some o =>
         refine ⟨by simp, ?_⟩
         intro opd' opt' heq
         simp only [Outcome.ok.injEq, Prod.mk.injEq] at heq
